@@ -440,7 +440,8 @@ pub fn gen_case(r: &mut Rng) -> (Op, String) {
         if g.r.chance(1, 10) {
             let mut op = g.atomicity_scenario();
             let n = op.number();
-            if n <= MAX_NODES && op.depth() <= MAX_DEPTH {
+            // the scenario is a fixed nest of 6-9 combinators: its own depth bound
+            if n <= MAX_NODES && op.depth() <= MAX_DEPTH + 4 {
                 return (op, input);
             }
             continue;
@@ -448,7 +449,7 @@ pub fn gen_case(r: &mut Rng) -> (Op, String) {
         if g.r.chance(1, 6) {
             let mut op = g.stack_scenario();
             let n = op.number();
-            if n <= MAX_NODES && op.depth() <= MAX_DEPTH {
+            if n <= MAX_NODES && op.depth() <= MAX_DEPTH + 4 {
                 return (op, input);
             }
             continue;
